@@ -77,7 +77,7 @@ pub fn drive_skrifa(spec: &Value) -> CaseOut {
     let Some(mut plan) = skdrv::Plan::named(spec["plan"].as_str().unwrap_or("")) else {
         return bad_case("skrifa case with unknown plan".into());
     };
-    plan.pristine = fc.devs.is_empty();
+    plan.pristine = fc.devs.is_empty() && fc.trunc.is_none();
     let Some(bytes) = fc.bytes() else {
         return bad_case(format!("font case does not apply: {}", fc.to_json()));
     };
@@ -110,7 +110,7 @@ pub fn gen_klippa_cases(max_size: usize, max_bytes: usize, rich: bool) -> Vec<Va
         if !klipdrv::seed_filter(data, max_size) || HEAVY_SEEDS.contains(&name.as_str()) {
             continue;
         }
-        let mk = |devs: Vec<fontcase::Dev>| json!({"driver": "klippa", "font": fontcase::FontCase { seed: name.clone(), devs }.to_json()});
+        let mk = |devs: Vec<fontcase::Dev>| json!({"driver": "klippa", "font": fontcase::FontCase { seed: name.clone(), devs, trunc: None }.to_json()});
         out.push(mk(vec![]));
         let dir = fontcase::table_dir(data);
         for kind in klipdrv::TABLE_KINDS {
@@ -138,6 +138,7 @@ pub fn gen_corpus_cases(plan: &str) -> Vec<Value> {
                 &fontcase::FontCase {
                     seed: name.clone(),
                     devs: vec![],
+                    trunc: None,
                 },
                 plan,
             )
@@ -165,6 +166,59 @@ pub fn gen_deviation_space(
             };
             for d in fontcase::table_deviations_ext(kind, &data[*off..*off + *len], max_bytes(name, kind), rich) {
                 out.push((fi, d));
+            }
+        }
+    }
+    out
+}
+
+/// Truncation amounts for every table; `fontcase::TRAILING_TABLES` additionally get every k in 1..=32.
+pub fn truncation_ks(quick: bool) -> Vec<usize> {
+    if quick {
+        vec![1, 2, 4]
+    } else {
+        vec![1, 2, 3, 4, 5, 8, 15, 16]
+    }
+}
+
+pub fn truncation_bounds(quick: bool) -> Value {
+    json!({"every_table_shortened_by": truncation_ks(quick), "tables_with_trailing_records": fontcase::TRAILING_TABLES,
+        "trailing_tables_shortened_by": "every k in 1..=32",
+        "how": "the table record's length is reduced; the file is cut as well when the table is physically last"})
+}
+
+/// Truncation cases for the skrifa driver (`plan` = a skrifa plan name, narrowed per seed/table like
+/// `deviation_case`) or for the klippa driver (`plan` = "klippa"): every table of every accepted seed × the
+/// truncation amounts of `truncation_ks` (+ 1..=32 for `fontcase::TRAILING_TABLES`).
+pub fn gen_truncation_cases(plan: &str, quick: bool, font_filter: &dyn Fn(&str, &[u8]) -> bool) -> Vec<Value> {
+    let ks = truncation_ks(quick);
+    let mut out = vec![];
+    for (name, data) in fontcase::corpus().iter() {
+        if !font_filter(name, data) {
+            continue;
+        }
+        let heavy = HEAVY_SEEDS.contains(&name.as_str());
+        for (tag, _, len) in fontcase::table_dir(data) {
+            for k in fontcase::truncations(&tag, len, &ks, !heavy) {
+                let fc = fontcase::FontCase {
+                    seed: name.clone(),
+                    devs: vec![],
+                    trunc: Some((tag.clone(), k as u32)),
+                };
+                if plan == "klippa" {
+                    out.push(json!({"driver": "klippa", "font": fc.to_json()}));
+                } else {
+                    let meta = META_ONLY_TABLES.contains(&tag.as_str());
+                    let klippa_font = name.starts_with("klippa/");
+                    let p = match (plan, meta, klippa_font) {
+                        ("min", true, _) => "meta",
+                        ("reduced", true, false) => "min",
+                        ("reduced", true, true) => "meta",
+                        ("reduced", false, true) => "min",
+                        (p, _, _) => p,
+                    };
+                    out.push(skrifa_case(&fc, p));
+                }
             }
         }
     }
@@ -206,6 +260,7 @@ pub fn deviation_case(item: &(usize, fontcase::Dev), plan: &str) -> Value {
         &fontcase::FontCase {
             seed: fontcase::corpus()[item.0].0.clone(),
             devs: vec![item.1.clone()],
+            trunc: None,
         },
         plan,
     )
@@ -354,7 +409,7 @@ pub fn phases(quick: bool) -> Result<Vec<Phase>, String> {
         let cases: Vec<Value> = MEMFULL_FONTS
             .iter()
             .filter(|f| fontcase::seed_bytes(f).is_some())
-            .map(|f| skrifa_case(&fontcase::FontCase { seed: f.to_string(), devs: vec![] }, "memfull"))
+            .map(|f| skrifa_case(&fontcase::FontCase { seed: f.to_string(), devs: vec![], trunc: None }, "memfull"))
             .collect();
         out.push(vec_phase(
             "memfull",
@@ -420,6 +475,20 @@ pub fn phases(quick: bool) -> Result<Vec<Phase>, String> {
         bounds,
         sample,
     });
+    // 1c. table truncations of the corpus fonts (skrifa driver)
+    let tr = gen_truncation_cases(&dplan, quick, &|name, _| !quick || name.starts_with("font-test-data/test_data/ttf/"));
+    let mid = tr.len() / 2;
+    out.push(vec_phase(
+        "truncations",
+        tr,
+        4,
+        mid,
+        vec![
+            ("truncations".into(), truncation_bounds(quick)),
+            ("truncations.seed_fonts".into(), json!(if quick { "font-test-data/test_data/ttf/*" } else { "whole corpus" })),
+            ("truncations.plans".into(), json!("as for deviations (min / meta in quick; reduced / min in thorough)")),
+        ],
+    ));
     // 2. TrueType program enumeration
     let pre = ttprog::preludes();
     let all_pre: Vec<usize> = (0..ttprog::N_BASE_PRELUDES).collect();
@@ -473,7 +542,8 @@ pub fn phases(quick: bool) -> Result<Vec<Phase>, String> {
     out.push(vec_phase("colridx", colridx::gen_cases(), 1, 0, vec![("colridx".into(), colridx::bounds())]));
     // 2c. klippa subsetter (observations in C02, judged by C20)
     let (ksize, kbytes) = if quick { (8 << 10, 32) } else { (64 << 10, 128) };
-    let kl = gen_klippa_cases(ksize, kbytes, !quick);
+    let mut kl = gen_klippa_cases(ksize, kbytes, !quick);
+    kl.extend(gen_truncation_cases("klippa", quick, &|name, data| klipdrv::seed_filter(data, ksize) && !HEAVY_SEEDS.contains(&name)));
     out.push(vec_phase(
         "klippa",
         kl,
@@ -484,6 +554,7 @@ pub fn phases(quick: bool) -> Result<Vec<Phase>, String> {
             json!({"seeds": format!("glyf-flavoured corpus fonts <= {ksize} bytes, without {HEAVY_SEEDS:?}"), "tables": klipdrv::TABLE_KINDS,
                 "deviated_bytes_per_table": kbytes, "requests": klipdrv::REQUESTS,
                 "flag_sets": klipdrv::FLAG_SETS.iter().map(|f| f.0).collect::<Vec<_>>(),
+                "truncations": truncation_bounds(quick),
                 "judged": "no (outside C02's statement; C20 judges arithmetic panics)"}),
         )],
     ));
@@ -524,6 +595,7 @@ pub fn phases(quick: bool) -> Result<Vec<Phase>, String> {
     // the format-1 width-boundary family comes first (c20 runs phases in enumeration order under a budget)
     iftf1::sanity().map_err(|e| format!("ift format 1 family gate: {e}"))?;
     let mut ift = iftf1::gen_cases();
+    ift.extend(iftdrv::gen_truncation_cases(!quick));
     ift.extend(iftdrv::gen_cases(ift_bytes, !quick));
     let lv = iftdrv::levels(!quick);
     let defs = iftdrv::defs();
@@ -537,6 +609,7 @@ pub fn phases(quick: bool) -> Result<Vec<Phase>, String> {
             "ift".into(),
             json!({"scenarios": iftdrv::scenarios().iter().map(|s| s.name).collect::<Vec<_>>(),
                 "format1_width_family": iftf1::bounds(),
+                "truncations": "every blob of every scenario shortened by k = 1..=32 bytes",
                 "deviated_bytes_per_blob": ift_bytes,
                 "alphabet": {"byte": fontcase::BYTE_ALPHABET, "u16_be": fontcase::U16_ALPHABET, "u16_be_relative": "len-2,len-1,len,len+1,pos,pos+1,pos+2,orig-1,orig+1"},
                 "definitions": lv.defs.iter().map(|i| defs[*i].0).collect::<Vec<_>>(),
